@@ -521,4 +521,24 @@ theorem varAperture_knot (lg exp10 : K → K) (hlg : ∀ x, 0 < x → exp10 (lg 
   rw [hlg x hxpos]
   exact clampK_id _ _ _ (hge x hx) (hle x hx)
 
+/-! ## `.max()` / `.min()` of an increasing aperture table are its last / first entry -/
+
+theorem listMax_of_sorted (x : K) (xs : List K) (h : (x :: xs).Pairwise (· < ·)) :
+    listMax (x :: xs) = lastD xs x := by
+  induction xs generalizing x with
+  | nil => simp [listMax, lastD]
+  | cons y ys ih =>
+    have hxy : x < y := (List.pairwise_cons.mp h).1 y List.mem_cons_self
+    have := ih y (List.pairwise_cons.mp h).2
+    simp only [listMax, List.foldl_cons, if_pos hxy, lastD] at this ⊢
+    exact this
+
+theorem listMin_of_sorted (x : K) (xs : List K) (h : (x :: xs).Pairwise (· < ·)) :
+    listMin (x :: xs) = x := by
+  have h1 : listMin (x :: xs) ≤ x := (foldl_min_le xs x).1
+  have hmem := listMin_mem (x :: xs) (by simp)
+  rcases List.mem_cons.mp hmem with h2 | h2
+  · exact h2
+  · exact absurd ((List.pairwise_cons.mp h).1 _ h2) (not_lt.mpr h1)
+
 end SF.Plt
